@@ -35,13 +35,22 @@ AllModes == {[ae |-> a, thr |-> t] : a \in AEs, t \in Thrs}
 FewModes == {[ae |-> "", thr |-> -1], [ae |-> "gzip", thr |-> 16], [ae |-> "gzip", thr |-> 0],
              [ae |-> "gzip;q=0", thr |-> 16], [ae |-> "br, gzip;q=0.5", thr |-> 16]}
 
-Mk(vs, ms) == {[v |-> v, ae |-> m.ae, thr |-> m.thr] : v \in vs, m \in ms}
+Mk(vs, ms) == {[g |-> "seq", v |-> v, ae |-> m.ae, thr |-> m.thr] : v \in vs, m \in ms}
+
+(* concurrent stage: pairwise distinct values (the integer marks the request), *)
+(* bodies of about 40 / 700 / 7000 bytes, i.e. on both sides of the thresholds *)
+(* 16 and 4096 (-1); all requests of one threshold are in flight together.     *)
+ConcVals == {VRep(n, VArr(<<VInt(k), VStr(<<97, 92>>), VStr(<<98, 32, 99>>)>>)) :
+               n \in {2, 40}, k \in 1..(IF Tier = "thorough" THEN 24 ELSE 12)}
+            \cup {VRep(400, VArr(<<VInt(k), VStr(<<97, 92>>), VStr(<<98, 32, 99>>)>>)) :
+                    k \in 1..(IF Tier = "thorough" THEN 12 ELSE 6)}
+ConcCases == {[g |-> "conc", v |-> v, ae |-> a, thr |-> t] : v \in ConcVals, a \in {"gzip", ""}, t \in {-1, 16, 0}}
 
 Cases == Mk(Singles, AllModes) \cup Mk(Long, AllModes) \cup Mk(Pairs, FewModes)
          \cup Mk(Objects, FewModes) \cup Mk(Nested, FewModes)
          \cup (IF Tier = "thorough" THEN Mk(Triples, FewModes) \cup Mk(Pairs \cup Objects \cup Nested, AllModes) ELSE {})
 
-GInit == case \in Cases
+GInit == case \in Cases \cup ConcCases
 GNext == UNCHANGED case
 GSpec == GInit /\ [][GNext]_case
 
